@@ -9,10 +9,20 @@
 (* SensibleConfs is the configuration space of a cfg.                      *)
 (***************************************************************************)
 EXTENDS Referrers, ReferrersProp
-CONSTANTS Modes, Caches, Pages, TagDels, SubjSel, Spells, Dopts
+CONSTANTS Modes, Caches, Pages, TagDels, SubjSel, Spells, Dopts,
+          Inits,   \* initial states left by another client: sequences of artifacts (<<>> = empty repository)
+          NAs      \* sets of artifacts without annotations
 
-SensibleConfs == ConfSpace(Modes, Caches, Pages, TagDels, SubjSel, Spells, Dopts)
+WithInit(c, i, n) == [f \in DOMAIN c \cup {"init", "idup", "na"} |->
+                         CASE f = "init" -> i [] f = "idup" -> 0 [] f = "na" -> n [] OTHER -> c[f]]
+SensibleConfs == {WithInit(c, i, n) : c \in ConfSpace(Modes, Caches, Pages, TagDels, SubjSel, Spells, Dopts),
+                                       i \in Inits, n \in NAs}
 
+InitsMC0 == {<<>>}
+InitsMC1 == {<<>>, <<"a2", "a1">>}
+InitsMC2 == {<<"a2", "a1">>}
+NAsNone == {{}}
+NAsMC1 == {{}, {"a1"}}
 P1 == <<"p1">>
 P2 == <<"p1", "p2">>
 P3 == <<"p1", "p2", "p3">>
@@ -28,7 +38,8 @@ Feed(o) ==
     [] OTHER           -> PNote
 
 MInit == /\ Init
-         /\ subj = conf.subj /\ mode = conf.mode /\ pend = <<>> /\ poss = {[st |-> {}, ap |-> {}]}
+         /\ subj = conf.subj /\ mode = conf.mode /\ na = NA /\ pend = <<>>
+         /\ poss = {[st |-> Range(InitSeq), ap |-> {}]}   \* the other client's pushes have returned
          /\ cur = {} /\ quiet = FALSE /\ bad = ""
 MNext == Next /\ Feed(out')
 MSpec == MInit /\ [][MNext]_<<dvars, pvars>>
